@@ -23,7 +23,7 @@ def parseParams (fep retry from_ to_ b c : String) : Option Params := do
   pure { from_ := f, to_ := t, bridges := bs, claims := cs, fep := fep, retry := retry }
 
 def showP (tag : String) (q : Params) : String :=
-  s!"{tag} {q.from_} {q.to_} b={ids q.bridges} c={ids q.claims} size={sizeFloat q}"
+  s!"{tag} {q.from_} {q.to_} b={ids q.bridges} c={ids q.claims} size={sizeFloat q} retry={boolStr q.retry} fep={boolStr q.fep}"
 
 def step (_ : Unit) (ws : List String) : Unit × String :=
   match ws with
